@@ -169,12 +169,15 @@ def wide(n):
 def cases(ctx):
     rng = ctx.rng
     out = []
-    for c in c09.cases(ctx):
+    # the thorough tiers of C09 / C11 / C12 run their own case lists in full; here (no-panic only) a sample of them is enough
+    # and keeps this check's memory bounded (the full union was ~1.5 M lines and got the run killed at 44 GB)
+    step = 6 if ctx.thorough() else 1
+    for c in c09.cases(ctx)[::step]:
         out.append(Case(c.line, ("op",)))
     skip = ("time", "exit", "sleep", "input", "flush", "open", "read", "write", "read_to_string", "read_line", "pcap_open", "pcap_stream", "pcap_read_next", "pcap_read_all", "pcap_write", "puts", "print", "println", "eprint", "eprintln")
-    for c in c11.cases(ctx):
+    for c in c11.cases(ctx)[::step]:
         out.append(Case(c.line, ("builtin",)))
-    for c in c12.cases(ctx):
+    for c in c12.cases(ctx)[::step]:
         out.append(Case(c.line, ("format",)))
     for b in ("get_errno", "strerror", "rand"):
         for v in [wire.i(0), wire.i(-1), wire.i(wire.I64_MAX), wire.i(wire.I64_MIN), wire.d(-1.0), wire.d(float("nan")), wire.d(float("inf")), wire.d(1e308), wire.s("x"), wire.NULL, wire.a()]:
@@ -186,7 +189,7 @@ def cases(ctx):
         srcs.append(s); tags.append("deep")
     for n in (1, 100, 254, 255):
         srcs.append(wide(n)); tags.append("wide")
-    for s in gen_lang.programs(rng, ctx.scale(1500, 60000), max_stmts=10, error_rate=0.1):
+    for s in gen_lang.programs(rng, ctx.scale(1500, 30000), max_stmts=10, error_rate=0.1):
         srcs.append(s); tags.append("generated")
         if rng.random() < 0.2:
             srcs.append(gen_lang.faulty_variant(rng, s)); tags.append("ill-formed")
